@@ -151,6 +151,10 @@ func checkC07(c *Ctx, r *Report) {
 	checkPackedDecoders(c, r)
 	checkDCMIVersionGuards(c, r)
 	checkRejectedLayersNotAdded(c, r)
+	// "a body shorter than the layer's minimum is rejected with an error rather than decoded" also
+	// means: not skipped. Every error-free SendCommand has run the response layer's decoder on
+	// the reply's body, however short (rule shared with C17)
+	checkResponseAlwaysDecoded(c, r)
 
 	r.Rule("accepts-minimal-encoding", "the decoder has a success path for the specification's shortest valid encodings", 10)
 	for _, m := range minimalEncodings {
